@@ -33,6 +33,8 @@ ScOf(j) == [single   |-> [n \in Node |-> ToSet(j.single[n])],
             procs    |-> [p \in 1..Len(j.procs) |-> j.procs[p]],
             mode     |-> [n \in Node |-> j.mode[n]],
             rorder   |-> [i \in 1..Len(j.rorder) |-> j.rorder[i]],
+            late     |-> [n \in Node |-> j.late[n]],
+            prewire  |-> [n \in Node |-> ToSet(j.prewire[n])],
             ilook    |-> [n \in Node |-> j.ilook[n]],
             sparse   |-> j.sparse]
 
